@@ -1,7 +1,490 @@
-//! C08 — not built yet.
-use lv_common::Ctx;
+//! C08 — The extended square is a two-dimensional erasure code.
+use celestia_types::consts::appconsts::AppVersion;
+use celestia_types::nmt::NamespacedHashExt;
+use celestia_types::{DataAvailabilityHeader, ExtendedDataSquare};
+use lv_common::Prng;
+use lv_common::prelude::*;
+use lv_gen::refs::{self, NS, SHARE};
+use lv_gen::square::{SquareSpec, build_ods, square_strategy, structured_square_strategy, user_ns};
+use lv_gen::sqx::{RawSquare, rs_parity, rs_reconstruct};
 
-pub fn run(_ctx: &mut Ctx) {
-    eprintln!("C08: check not built yet");
-    std::process::exit(2);
+#[derive(Clone, Debug, Serialize, Deserialize)]
+pub struct Case {
+    pub square: SquareSpec,
+    pub seed: u64,
+    pub axes: Vec<u16>,
+}
+
+#[derive(Clone, Debug, Serialize, Deserialize)]
+pub enum Bad {
+    /// `n` valid shares where n is not a perfect square
+    NonSquareCount { n: u16 },
+    /// k*k valid shares, k not a power of two
+    NonPow2Width { k: u8 },
+    Empty,
+    /// one share of the ODS resized
+    OneShareSize { pos: u16, len: u16 },
+    /// every share resized to the same wrong size
+    AllSharesSize { len: u16 },
+    /// two shares with different namespaces of one row exchanged
+    UnsortedRow { r: u16, a: u16, b: u16 },
+    /// two whole rows exchanged: every row stays sorted, columns do not
+    UnsortedCol { r1: u16, r2: u16 },
+    /// share version 1 in a square built for an app version < 3
+    ShareVersionOne { pos: u16, app: u8 },
+    /// invalid namespace bytes in one ODS share
+    BadNamespace { pos: u16, version: u8 },
+    /// `ExtendedDataSquare::new` only: more shares than the app version allows (shares left empty: the bound is checked first)
+    TooManyShares { app: u8 },
+    /// `ExtendedDataSquare::new` only: fewer shares than the minimum
+    TooFewShares { n: u8 },
+    /// `ExtendedDataSquare::new` only: EDS of a non power-of-two width
+    NewNonPow2 { w: u8 },
+    /// `ExtendedDataSquare::new` only: count is not a square
+    NewNonSquare { n: u16 },
+}
+
+#[derive(Clone, Debug, Serialize, Deserialize)]
+pub struct BadCase {
+    pub square: SquareSpec,
+    pub bad: Bad,
+}
+
+fn bad_strategy() -> impl Strategy<Value = Bad> {
+    prop_oneof![
+        2 => (2u16..300).prop_map(|n| Bad::NonSquareCount { n }),
+        2 => prop::sample::select(vec![3u8, 5, 6, 7, 9, 12]).prop_map(|k| Bad::NonPow2Width { k }),
+        1 => Just(Bad::Empty),
+        3 => (any::<u16>(), prop::sample::select(vec![0u16, 1, 64, 448, 511, 513, 576, 1024])).prop_map(|(pos, len)| Bad::OneShareSize { pos, len }),
+        2 => prop::sample::select(vec![0u16, 64, 128, 448, 500, 576, 1024]).prop_map(|len| Bad::AllSharesSize { len }),
+        4 => (any::<u16>(), any::<u16>(), any::<u16>()).prop_map(|(r, a, b)| Bad::UnsortedRow { r, a, b }),
+        4 => (any::<u16>(), any::<u16>()).prop_map(|(r1, r2)| Bad::UnsortedCol { r1, r2 }),
+        2 => (any::<u16>(), 1u8..3).prop_map(|(pos, app)| Bad::ShareVersionOne { pos, app }),
+        2 => (any::<u16>(), 1u8..255).prop_map(|(pos, version)| Bad::BadNamespace { pos, version }),
+        1 => (1u8..=7).prop_map(|app| Bad::TooManyShares { app }),
+        1 => (0u8..4).prop_map(|n| Bad::TooFewShares { n }),
+        1 => prop::sample::select(vec![3u8, 5, 6, 7, 9, 10, 12]).prop_map(|w| Bad::NewNonPow2 { w }),
+        1 => (5u16..300).prop_map(|n| Bad::NewNonSquare { n }),
+    ]
+}
+
+fn app_of(v: u8) -> AppVersion {
+    match v {
+        1 => AppVersion::V1,
+        2 => AppVersion::V2,
+        3 => AppVersion::V3,
+        4 => AppVersion::V4,
+        5 => AppVersion::V5,
+        6 => AppVersion::V6,
+        _ => AppVersion::V7,
+    }
+}
+
+fn is_square(n: usize) -> bool {
+    let r = (n as f64).sqrt().round() as usize;
+    r * r == n
+}
+
+fn dummy_share(ns: &[u8; NS], rng: &mut Prng) -> Vec<u8> {
+    let mut s = vec![0u8; SHARE];
+    s[..NS].copy_from_slice(ns);
+    s[NS] = 1;
+    s[NS + 1..NS + 5].copy_from_slice(&(refs::FIRST_CAP_V0 as u32).to_be_bytes());
+    rng.fill(&mut s[NS + 5..]);
+    s
+}
+
+fn expect_err<T>(obs: &mut Obs, what: &str, sig: &str, detail: String, f: impl FnOnce() -> celestia_types::Result<T>) -> Result<(), Failure> {
+    match lv_common::no_panic(f) {
+        Ok(Err(_)) => Ok(()),
+        Ok(Ok(_)) => obs.fail(sig, format!("{what} accepted a malformed input: {detail}")),
+        Err(rec) => obs.fail(&format!("C08:{}", lv_gen::sqx::panic_site(&rec)), format!("{what} panicked instead of returning an error on {detail}: {rec}")),
+    }
+}
+
+fn check_square(case: &Case, obs: &mut Obs) -> Result<(), Failure> {
+    let (ods, _) = build_ods(&case.square);
+    let k = 1usize << case.square.ods_log2;
+    let app = AppVersion::V3;
+    let eds = match lv_common::no_panic(|| ExtendedDataSquare::from_ods(ods.clone(), app)) {
+        Ok(Ok(e)) => e,
+        Ok(Err(e)) => return obs.fail("C08:valid-ods-rejected", format!("from_ods rejected a valid ODS of width {k}: {e}")),
+        Err(rec) => return obs.fail("C08:valid-ods-panicked", format!("from_ods panicked on a valid ODS of width {k}: {rec}")),
+    };
+    let raw = RawSquare::from_eds(&eds);
+    let w = raw.w;
+    obs.check(w == 2 * k && eds.square_width() as usize == w && raw.shares.len() == w * w, "C08:wrong-eds-width", || format!("ODS width {k} extended to width {w}"))?;
+    obs.label(&format!("ods-width-{k}"));
+
+    // (1) first quadrant is the ODS, byte for byte
+    obs.eval(None);
+    for r in 0..k {
+        for c in 0..k {
+            obs.check(raw.share(r, c) == &ods[r * k + c], "C08:first-quadrant-differs", || format!("share ({r},{c}) of the EDS differs from the ODS share (ODS width {k})"))?;
+            obs.check(eds.share(r as u16, c as u16).map(|s| s.to_vec()).ok().as_ref() == Some(&ods[r * k + c]), "C08:first-quadrant-differs", || format!("eds.share({r},{c}) differs from the ODS share"))?;
+        }
+    }
+
+    // (2) independent re-extension in another pass order: Q2 = rows(Q1), Q3 = cols(Q1), Q4 = rows(Q3) = cols(Q2)
+    let q = |r: usize, c: usize| raw.share(r, c).clone();
+    let mut q2 = vec![vec![Vec::new(); k]; k]; // [row][col-k]
+    for r in 0..k {
+        let data: Vec<Vec<u8>> = (0..k).map(|c| ods[r * k + c].clone()).collect();
+        q2[r] = rs_parity(&data);
+    }
+    let mut q3 = vec![vec![Vec::new(); k]; k]; // [row-k][col]
+    for c in 0..k {
+        let data: Vec<Vec<u8>> = (0..k).map(|r| ods[r * k + c].clone()).collect();
+        for (j, p) in rs_parity(&data).into_iter().enumerate() {
+            q3[j][c] = p;
+        }
+    }
+    obs.eval(Some(digest_of(&("requadrant", &case.square))));
+    obs.label("quadrant-commutation");
+    for j in 0..k {
+        let q4_rows = rs_parity(&q3[j]); // row k+j of Q4
+        let col_data: Vec<Vec<u8>> = (0..k).map(|r| q2[r][j].clone()).collect();
+        let q4_col = rs_parity(&col_data); // column k+j of Q4
+        for i in 0..k {
+            obs.check(q(j, k + i) == q2[j][i], "C08:q2-not-row-extension", || format!("Q2 share ({j},{}) is not the row extension of the ODS (width {k})", k + i))?;
+            obs.check(q(k + j, i) == q3[j][i], "C08:q3-not-column-extension", || format!("Q3 share ({},{i}) is not the column extension of the ODS (width {k})", k + j))?;
+            obs.check(q(k + j, k + i) == q4_rows[i], "C08:q4-not-row-extension-of-q3", || format!("Q4 share ({},{}) is not the row extension of Q3 (width {k})", k + j, k + i))?;
+            obs.check(q(k + i, k + j) == q4_col[i], "C08:q4-not-column-extension-of-q2", || format!("Q4 share ({},{}) is not the column extension of Q2 (width {k})", k + i, k + j))?;
+        }
+    }
+
+    // (3) every axis (sampled above EDS width 32): any half of the shares reconstructs the axis
+    let idxs: Vec<usize> = if w <= 32 {
+        (0..w).collect()
+    } else {
+        let mut v = vec![0, k - 1, k, w - 1];
+        v.extend(case.axes.iter().map(|s| pick(*s, w)));
+        v.sort();
+        v.dedup();
+        v
+    };
+    let mut rng = Prng::new(case.seed);
+    for row_axis in [true, false] {
+        for &idx in &idxs {
+            let axis = raw.axis(row_axis, idx);
+            let mut patterns: Vec<(Vec<bool>, bool)> = vec![((0..w).map(|i| i < k).collect(), true), ((0..w).map(|i| i >= k).collect(), true)];
+            for _ in 0..3 {
+                // exactly k present positions, uniformly chosen
+                let mut pos: Vec<usize> = (0..w).collect();
+                for i in 0..k {
+                    let j = i + rng.below((w - i) as u64) as usize;
+                    pos.swap(i, j);
+                }
+                let mut p = vec![false; w];
+                for &i in &pos[..k] {
+                    p[i] = true;
+                }
+                let canonical = p[..k].iter().all(|b| *b) || p[k..].iter().all(|b| *b);
+                patterns.push((p, canonical));
+            }
+            for (present, canonical) in patterns {
+                let parity_axis = !row_axis || idx >= k;
+                let nontrivial = parity_axis && !canonical;
+                let pd = present.iter().fold(0u64, |a, b| a.rotate_left(1) ^ *b as u64);
+                obs.eval(nontrivial.then(|| digest_of(&(&case.square.seed, case.square.ods_log2, row_axis, idx, pd)) ^ digest_bytes(&axis[w - 1])));
+                obs.label(match (row_axis, idx >= k) {
+                    (true, false) => "axis-data-row",
+                    (true, true) => "axis-parity-row",
+                    (false, false) => "axis-data-col",
+                    (false, true) => "axis-parity-col",
+                });
+                if !canonical {
+                    obs.label("erasure-mixed-half");
+                }
+                match rs_reconstruct(&axis, &present) {
+                    Ok(rec) => obs.check(rec == axis, "C08:axis-not-a-codeword", || {
+                        format!(
+                            "{} {idx} of the EDS (width {w}) is not reconstructed from the half {:?}: not a codeword",
+                            if row_axis { "row" } else { "column" },
+                            present.iter().map(|b| *b as u8).collect::<Vec<_>>()
+                        )
+                    })?,
+                    Err(e) => obs.fail("C08:axis-reconstruct-error", format!("reconstructing {} {idx} (width {w}) from exactly half of its shares failed: {e}", if row_axis { "row" } else { "column" }))?,
+                }
+            }
+        }
+    }
+
+    // (4) DAH roots equal the reference NMT roots
+    let dah = DataAvailabilityHeader::from_eds(&eds);
+    obs.eval(None);
+    obs.label("dah-roots");
+    obs.check(dah.square_width() as usize == w && dah.row_roots().len() == w && dah.column_roots().len() == w, "C08:dah-width", || format!("DAH of an EDS of width {w} has {} row roots / {} column roots", dah.row_roots().len(), dah.column_roots().len()))?;
+    for i in 0..w {
+        let rr = raw.axis_root(true, i).to_bytes();
+        let cr = raw.axis_root(false, i).to_bytes();
+        obs.check(dah.row_root(i as u16).map(|h| h.to_array()) == Some(rr), "C08:dah-row-root-differs", || format!("row root {i} (width {w}) differs from the reference NMT root"))?;
+        obs.check(dah.column_root(i as u16).map(|h| h.to_array()) == Some(cr), "C08:dah-col-root-differs", || format!("column root {i} (width {w}) differs from the reference NMT root"))?;
+    }
+    // the same square through `new` (no encoding) is accepted and equal
+    match lv_common::no_panic(|| ExtendedDataSquare::new(raw.shares.clone(), "Leopard".into(), app)) {
+        Ok(Ok(e2)) => obs.check(e2 == eds, "C08:new-differs-from-from-ods", || "ExtendedDataSquare::new(shares of from_ods) differs".to_string())?,
+        Ok(Err(e)) => obs.fail("C08:valid-eds-rejected", format!("ExtendedDataSquare::new rejected the shares produced by from_ods (width {w}): {e}"))?,
+        Err(rec) => obs.fail("C08:valid-eds-panicked", format!("ExtendedDataSquare::new panicked: {rec}"))?,
+    }
+    Ok(())
+}
+
+fn check_bad(case: &BadCase, obs: &mut Obs) -> Result<(), Failure> {
+    let (ods, _) = build_ods(&case.square);
+    let k = 1usize << case.square.ods_log2;
+    let mut rng = Prng::new(case.square.seed ^ 0xbad);
+    let ns = lv_gen::square::ns_bytes(&user_ns(7));
+    let v3 = AppVersion::V3;
+    let tag = digest_of(&case.bad) ^ case.square.seed;
+    let from_ods_err = |obs: &mut Obs, shares: Vec<Vec<u8>>, app: AppVersion, sig: &str, detail: String| -> Result<(), Failure> {
+        obs.eval(Some(tag));
+        expect_err(obs, "ExtendedDataSquare::from_ods", sig, detail, move || ExtendedDataSquare::from_ods(shares, app))
+    };
+    let new_err = |obs: &mut Obs, shares: Vec<Vec<u8>>, app: AppVersion, sig: &str, detail: String| -> Result<(), Failure> {
+        obs.eval(Some(tag ^ 1));
+        expect_err(obs, "ExtendedDataSquare::new", sig, detail, move || ExtendedDataSquare::new(shares, "Leopard".into(), app))
+    };
+    // extend a (possibly malformed) ODS by hand so that `new` sees a correctly encoded square
+    let extend = |ods: &[Vec<u8>], k: usize| -> Option<Vec<Vec<u8>>> {
+        if ods.iter().any(|s| s.len() != SHARE) || k == 0 || k * k != ods.len() || k > 128 {
+            return None;
+        }
+        let w = 2 * k;
+        let mut sq = vec![vec![0u8; SHARE]; w * w];
+        for r in 0..k {
+            let data: Vec<Vec<u8>> = ods[r * k..(r + 1) * k].to_vec();
+            let p = rs_parity(&data);
+            for c in 0..k {
+                sq[r * w + c] = data[c].clone();
+                sq[r * w + k + c] = p[c].clone();
+            }
+        }
+        for c in 0..w {
+            let data: Vec<Vec<u8>> = (0..k).map(|r| sq[r * w + c].clone()).collect();
+            for (j, p) in rs_parity(&data).into_iter().enumerate() {
+                sq[(k + j) * w + c] = p;
+            }
+        }
+        Some(sq)
+    };
+    match &case.bad {
+        Bad::NonSquareCount { n } => {
+            let mut n = *n as usize;
+            while is_square(n) {
+                n += 1;
+            }
+            obs.label("bad-non-square-count");
+            let shares: Vec<Vec<u8>> = (0..n).map(|_| dummy_share(&ns, &mut rng)).collect();
+            from_ods_err(obs, shares, v3, "C08:accepted-non-square", format!("{n} shares (not a perfect square)"))?;
+        }
+        Bad::NonPow2Width { k } => {
+            let k = *k as usize;
+            obs.label("bad-non-pow2-width");
+            let shares: Vec<Vec<u8>> = (0..k * k).map(|_| dummy_share(&ns, &mut rng)).collect();
+            if let Some(sq) = extend(&shares, k) {
+                new_err(obs, sq, v3, "C08:accepted-non-pow2-width", format!("correctly extended square of ODS width {k}"))?;
+            }
+            from_ods_err(obs, shares, v3, "C08:accepted-non-pow2-width", format!("ODS of width {k} (not a power of two)"))?;
+        }
+        Bad::Empty => {
+            obs.label("bad-empty");
+            from_ods_err(obs, vec![], v3, "C08:accepted-empty", "no shares".into())?;
+            new_err(obs, vec![], v3, "C08:accepted-empty", "no shares".into())?;
+        }
+        Bad::OneShareSize { pos, len } => {
+            obs.label("bad-one-share-size");
+            let mut s = ods.clone();
+            let p = pick(*pos, s.len());
+            s[p].resize(*len as usize, 0);
+            from_ods_err(obs, s, v3, "C08:accepted-wrong-share-size", format!("share {p} of an ODS of width {k} resized to {len} bytes"))?;
+            // the same through `new`: a correctly extended square with one share resized
+            if let Some(mut sq) = extend(&ods, k) {
+                let p = pick(*pos, sq.len());
+                sq[p].resize(*len as usize, 0);
+                new_err(obs, sq, v3, "C08:accepted-wrong-share-size", format!("share {p} of an EDS of width {} resized to {len} bytes", 2 * k))?;
+            }
+        }
+        Bad::AllSharesSize { len } => {
+            obs.label("bad-all-shares-size");
+            let s: Vec<Vec<u8>> = ods
+                .iter()
+                .map(|x| {
+                    let mut y = x.clone();
+                    y.resize(*len as usize, 0);
+                    y
+                })
+                .collect();
+            from_ods_err(obs, s, v3, "C08:accepted-wrong-share-size", format!("all shares of an ODS of width {k} resized to {len} bytes"))?;
+        }
+        Bad::UnsortedRow { r, a, b } => {
+            let r = pick(*r, k);
+            let a = pick(*a, k);
+            // prefer a partner with a different namespace
+            let others: Vec<usize> = (0..k).filter(|&c| ods[r * k + c][..NS] != ods[r * k + a][..NS]).collect();
+            let b = if others.is_empty() { pick(*b, k) } else { others[pick(*b, others.len())] };
+            if ods[r * k + a][..NS] == ods[r * k + b][..NS] {
+                obs.label("bad-unsorted-row-noop");
+                return Ok(());
+            }
+            obs.label("bad-unsorted-row");
+            let mut s = ods.clone();
+            s.swap(r * k + a, r * k + b);
+            let sq = extend(&s, k).unwrap();
+            from_ods_err(obs, s, v3, "C08:accepted-unsorted-row", format!("ODS width {k}: shares {a} and {b} of row {r} (different namespaces) exchanged"))?;
+            new_err(obs, sq, v3, "C08:accepted-unsorted-row", format!("EDS of ODS width {k}: shares {a} and {b} of row {r} exchanged before extension"))?;
+        }
+        Bad::UnsortedCol { r1, r2 } => {
+            let (r1, r2) = (pick(*r1, k), pick(*r2, k));
+            let (lo, hi) = (r1.min(r2), r1.max(r2));
+            // exchanging two rows breaks column order iff some column strictly increases between them
+            let breaks = (0..k).any(|c| ods[lo * k + c][..NS] < ods[hi * k + c][..NS]);
+            if !breaks {
+                obs.label("bad-unsorted-col-noop");
+                return Ok(());
+            }
+            let mut s = ods.clone();
+            for c in 0..k {
+                s.swap(lo * k + c, hi * k + c);
+            }
+            let rows_sorted = (0..k).all(|r| (1..k).all(|c| s[r * k + c - 1][..NS] <= s[r * k + c][..NS]));
+            obs.label(if rows_sorted { "bad-unsorted-col-only" } else { "bad-unsorted-col-and-row" });
+            let sq = extend(&s, k).unwrap();
+            from_ods_err(obs, s, v3, "C08:accepted-unsorted-column", format!("ODS width {k}: rows {lo} and {hi} exchanged (rows sorted: {rows_sorted}, some column now decreases)"))?;
+            new_err(obs, sq, v3, "C08:accepted-unsorted-column", format!("EDS of ODS width {k}: rows {lo} and {hi} exchanged before extension"))?;
+        }
+        Bad::ShareVersionOne { pos, app } => {
+            obs.label("bad-share-version-one");
+            let mut s = ods.clone();
+            let p = pick(*pos, s.len());
+            s[p][NS] = (1 << 1) | (s[p][NS] & 1);
+            let sq = extend(&s, k).unwrap();
+            from_ods_err(obs, s, app_of(*app), "C08:accepted-share-v1-before-v3", format!("share {p} with share version 1 under app version {app}"))?;
+            new_err(obs, sq, app_of(*app), "C08:accepted-share-v1-before-v3", format!("share {p} with share version 1 under app version {app}"))?;
+        }
+        Bad::BadNamespace { pos, version } => {
+            obs.label("bad-namespace");
+            let mut s = ods.clone();
+            let p = pick(*pos, s.len());
+            // namespace versions other than 0 and 255 do not exist; version 255 requires an all-0xff prefix
+            s[p][0] = *version;
+            if *version == 255 {
+                s[p][1] = 0;
+            }
+            let sq = extend(&s, k).unwrap();
+            from_ods_err(obs, s, v3, "C08:accepted-invalid-namespace", format!("share {p} with namespace version {version}"))?;
+            new_err(obs, sq, v3, "C08:accepted-invalid-namespace", format!("share {p} with namespace version {version}"))?;
+        }
+        Bad::TooManyShares { app } => {
+            obs.label("bad-too-many-shares");
+            let a = app_of(*app);
+            let max_w = celestia_types::consts::appconsts::square_size_upper_bound(a) * 2;
+            // a power-of-two square above the bound where that stays small, else bound + 1
+            let n = if max_w <= 256 { (2 * max_w) * (2 * max_w) } else { max_w * max_w + 1 };
+            new_err(obs, vec![Vec::new(); n], a, "C08:accepted-oversized", format!("{n} (empty) shares, above the bound {max_w}^2 of app version {app}"))?;
+        }
+        Bad::TooFewShares { n } => {
+            obs.label("bad-too-few-shares");
+            let shares: Vec<Vec<u8>> = (0..*n).map(|_| vec![0xffu8; SHARE]).collect();
+            new_err(obs, shares, v3, "C08:accepted-undersized", format!("{n} shares"))?;
+        }
+        Bad::NewNonPow2 { w } => {
+            obs.label("bad-new-non-pow2");
+            let w = *w as usize;
+            // all-parity-looking shares except valid first quadrant of one namespace
+            let h = w / 2;
+            let shares: Vec<Vec<u8>> = (0..w * w)
+                .map(|i| {
+                    let (r, c) = (i / w, i % w);
+                    if r < h && c < h { dummy_share(&ns, &mut rng) } else { rng.bytes(SHARE) }
+                })
+                .collect();
+            new_err(obs, shares, v3, "C08:accepted-non-pow2-width", format!("{w}x{w} shares"))?;
+        }
+        Bad::NewNonSquare { n } => {
+            let mut n = *n as usize;
+            while is_square(n) {
+                n += 1;
+            }
+            obs.label("bad-new-non-square");
+            let shares: Vec<Vec<u8>> = (0..n).map(|_| rng.bytes(SHARE)).collect();
+            new_err(obs, shares, v3, "C08:accepted-non-square", format!("{n} shares (not a perfect square)"))?;
+        }
+    }
+    Ok(())
+}
+
+pub fn run(ctx: &mut Ctx) {
+    ctx.assume("Reed-Solomon ground truth = leopard_codec (the codec the property names) driven directly by the harness: encode for re-extension in a different pass order, reconstruct for erasure patterns; an error shared by leopard's encoder and decoder would not be seen");
+    ctx.assume("NMT reference = lv_gen::refs (sha2 only)");
+    ctx.essential(&[
+        "axis-parity-row",
+        "axis-data-col",
+        "axis-parity-col",
+        "erasure-mixed-half",
+        "quadrant-commutation",
+        "dah-roots",
+        "bad-non-square-count",
+        "bad-non-pow2-width",
+        "bad-one-share-size",
+        "bad-all-shares-size",
+        "bad-unsorted-row",
+        "bad-unsorted-col-only",
+        "bad-share-version-one",
+        "bad-too-many-shares",
+        "bad-empty",
+    ]);
+    let rule = "per generated valid ODS (structured namespaces or dummy): from_ods must succeed; first quadrant == ODS byte for byte; Q2/Q3/Q4 equal a harness re-extension (rows(Q1), cols(Q1), rows(Q3) == cols(Q2)); for every axis (sampled above EDS width 32) the two canonical halves and 3 random subsets of exactly half the positions must reconstruct the whole axis; DAH roots == reference NMT roots. Non-trivial = column or parity-row axis with a non-canonical (mixed) erasure pattern, and the re-extension comparison (distinct by square, axis, pattern)";
+    // small and medium squares
+    let hi = ctx.tier.pick(4, 5);
+    let cases = ctx.tier.pick(2000, 20000);
+    ctx.proptest(
+        "squares",
+        rule,
+        cases,
+        move || (square_strategy(0, hi), any::<u64>(), prop::collection::vec(any::<u16>(), 12)).prop_map(|(square, seed, axes)| Case { square, seed, axes }),
+        check_square,
+    );
+    // large squares: ODS 32 and 64 (thorough: also 128)
+    let big_hi = ctx.tier.pick(6, 7);
+    let big_cases = ctx.tier.pick(40, 160);
+    ctx.proptest(
+        "squares-large",
+        rule,
+        big_cases,
+        move || (square_strategy(5, big_hi), any::<u64>(), prop::collection::vec(any::<u16>(), 12)).prop_map(|(square, seed, axes)| Case { square, seed, axes }),
+        check_square,
+    );
+    let bad_cases = ctx.tier.pick(20000, 200000);
+    ctx.proptest(
+        "malformed",
+        "malformed inputs to from_ods / new must give Err and never panic: non-square counts, widths 3,5,6,7,9,12, empty, one share of a wrong size, all shares of a wrong (also 64-multiple) size, namespaces unsorted along a row, along a column only (two rows exchanged), share version 1 under app < V3, invalid namespace, too many / too few shares. Every case is non-trivial (distinct by kind+parameters+square seed)",
+        bad_cases,
+        || (structured_square_strategy(1, 3), bad_strategy()).prop_map(|(square, bad)| BadCase { square, bad }),
+        check_bad,
+    );
+    if ctx.tier == Tier::Thorough {
+        // ODS wider than any app version's leopard-encodable bound: 256x256 shares (33 MB)
+        ctx.enumerate("oversized-ods", "one ODS of width 256 (above the 128 bound of app versions <= 5 and above what GF(2^8) leopard can extend) must be rejected by from_ods", true, vec![256usize], |k, obs| {
+            let ns = lv_gen::square::ns_bytes(&user_ns(7));
+            let mut rng = Prng::new(1);
+            let shares: Vec<Vec<u8>> = (0..k * k).map(|_| dummy_share(&ns, &mut rng)).collect();
+            obs.eval(Some(*k as u64));
+            obs.label("bad-oversized-ods");
+            expect_err(obs, "ExtendedDataSquare::from_ods", "C08:accepted-oversized", format!("ODS of width {k} under app version 3"), move || ExtendedDataSquare::from_ods(shares, AppVersion::V3))
+        });
+        // an EDS above the app version's bound, otherwise well formed: 512x512 shares (134 MB) under app
+        // version 3 (bound 256x256). Only the size bound can reject it.
+        ctx.enumerate("oversized-eds", "one 512x512 EDS (valid single-namespace first quadrant, parity-looking rest) under app version 3, whose bound is 256x256, must be rejected by ExtendedDataSquare::new", true, vec![512usize], |w, obs| {
+            let ns = lv_gen::square::ns_bytes(&user_ns(7));
+            let mut rng = Prng::new(2);
+            let data = dummy_share(&ns, &mut rng);
+            let parity = vec![0xabu8; SHARE];
+            let h = w / 2;
+            let shares: Vec<Vec<u8>> = (0..w * w).map(|i| if i / w < h && i % w < h { data.clone() } else { parity.clone() }).collect();
+            obs.eval(Some(*w as u64));
+            obs.label("bad-oversized-eds");
+            expect_err(obs, "ExtendedDataSquare::new", "C08:accepted-oversized", format!("EDS of width {w} under app version 3 (bound 256)"), move || ExtendedDataSquare::new(shares, "Leopard".into(), AppVersion::V3))
+        });
+    }
 }
